@@ -150,6 +150,17 @@ Theorem tensordot_den :
 Proof. exact tensordot_den_proof. Qed.
 Print Assumptions tensordot_den.
 
+(* tensordot's block for a zero-size contraction returns an object of the requested kind — COO for return_type=COO
+   (and for None with two sparse operands), GCXS for GCXS, ndarray for np.ndarray (and for None when an operand is
+   dense) — and this model of it equals the table obtained by executing the block's statements (Gen/S_dot.v).
+   (Finding zero_size_shortcut_ignores_return_type of this check, repaired.) *)
+Theorem td_shortcut_kind_correct :
+  forall (ka kb : okind) (rt : rtype),
+    source_shortcut_kind ka kb rt = Some (rkind_code (td_shortcut_kind ka kb rt))
+    /\ rkind_matches rt (td_shortcut_kind ka kb rt) = true.
+Proof. exact td_shortcut_kind_proof. Qed.
+Print Assumptions td_shortcut_kind_correct.
+
 (* dot of two 1-d operands (routing by the generated fragment g_dot): NumPy's answer, ValueError for
    different lengths included (finding D19, repaired). *)
 Theorem dot_1d_correct :
@@ -317,7 +328,7 @@ Print Assumptions csr_den_gden.
    _einsum_single (one sparse operand, "lhs->rhs"): selector for repeated labels, projection/permutation by
    perm = [lhs.index(ix) for ix in rhs], duplicates summed (has_duplicates=True): on a canonical zero-filled COO
    operand whose repeated labels have equal extents, the summed meaning of the result is np.einsum's
-   (Spec/NpDot.v np_einsum1).  (The result is NOT pruned: explicit zeros may be stored — C06's finding.) *)
+   (Spec/NpDot.v np_einsum1).  (The constructor is also told prune=True: sums that cancel are not stored; den_sum is unaffected.) *)
 Theorem einsum_single_den :
   forall (V : Type) (vzero : V) (vadd vmul : V -> V -> V), comm_semiring vzero vadd vmul ->
   forall (lhs rhs : list Z) (c : coo V),
